@@ -7,19 +7,21 @@
    bcrypt keys a password by the first 72 bytes of the cyclic repetition of password ++ NUL, so
      - a string longer than 72 bytes is equivalent to its 72-byte prefix            (id mod 1000),
      - "ab" ++ NUL ++ "ab" (id 7) is equivalent to "ab" (id 6); id 2 also contains a NUL byte.
-   [canon] maps an id to the representative of its bcrypt class; a hash is the pair (salt, password) and
+   [canon] maps an id to the representative of its bcrypt class (= bkey); a hash is (cost, salt, password) and
    verification compares representatives, which is what bcrypt does on this alphabet; SHA-1 is the identity
    on ids (injective).  [plain] = at most 72 bytes and NUL-free. *)
 From SG Require Import Base.Prelude C12.AuthN.
 Open Scope N_scope.
 
-Definition xhash : Type := (N * N)%type.
+Definition xhash : Type := (N * N * N)%type.     (* cost, salt, password *)
 Definition canon (p : N) : N := let t := p mod 1000 in if t =? 7 then 6 else t.
 Definition XC : crypto :=
   mkCrypto xhash
-           (fun a b => (fst a =? fst b) && (snd a =? snd b))
-           (fun salt p => (salt, p))
+           (fun a b => (fst (fst a) =? fst (fst b)) && (snd (fst a) =? snd (fst b)) && (snd a =? snd b))
+           (fun c salt p => (c, salt, p))
+           (fun h => fst (fst h))
            (fun h q => canon (snd h) =? canon q)
            (fun p => p)
            (fun p => 1000 <=? p)
+           canon
            (fun p => (p <? 1000) && negb (p =? 2) && negb (p =? 7)).
